@@ -118,22 +118,27 @@ def scoring(ctx, cell):
         return
     score = dict(mon[0].kwargs).get("X", mon[0].args[0] if mon[0].args else None)
     sa = score.single_atom() if score is not None else None
-    ok = sa is not None and sa[0] == "call" and sa[1] == "max" and len(sa[2]) == 1 and (sa[2][0].single_atom() or ("",))[0] == "loopvar"
+    seq = sa[2][0].single_atom() if sa is not None and sa[0] == "call" and sa[1] == "max" and len(sa[2]) == 1 else None
+    # the per-component scores: a list filled in a loop, or a comprehension
+    ok = seq is not None and (seq[0] == "loopvar" or (seq[0] == "comp" and seq[1] in ("list", "gen") and len(seq[2]) == 1 and not seq[4]))
     ctx.ob("FRM", U, "the maximum of the per-component scores is fed to the Page-Hinkley monitor [%s]" % L, ok, q.short(score, 80) if score is not None else "", mon[0])
     tot = A("_total_samples") + const(1)
     sched = [S("m == 0", {"m": atom(("mod", tot - const(1), A("step")))}), S("t != 0", {"t": tot - const(1)})]
     ctx.ob("GRD", U, "scored every `step` samples [%s]" % L, not q.guard_set_implies(mon[0], sched), "", mon[0])
     want_fn = "_jensen_shannon_distance" if cell["divergence_metric"] == "kl" else "_intersection_divergence"
-    dv = [e for e in tr.calls() if e.d.get("fi") is not None and e.fi.qualname == PC + "." + want_fn and e.func.qualname == U]
-    other = [e for e in tr.calls() if e.d.get("fi") is not None and e.fi.name in ("_jensen_shannon_distance", "_intersection_divergence") and e.fi.name != want_fn and e.func.qualname == U]
+    dv = [e for e in tr.calls() if e.d.get("fi") is not None and e.fi.qualname == PC + "." + want_fn and q.stack_has(e, U)]
+    other = [e for e in tr.calls() if e.d.get("fi") is not None and e.fi.name in ("_jensen_shannon_distance", "_intersection_divergence") and e.fi.name != want_fn and q.stack_has(e, U)]
     ok = len(dv) == 1 and not other
     if ok:
         a0, a1 = q.unmut(dv[0].args[0]).single_atom(), q.unmut(dv[0].args[1]).single_atom()
         ok = a0 is not None and a1 is not None and a0[0] == "sub" and a1[0] == "sub" and a0[2] == a1[2] and \
             _rooted_in(a0[1], "_density_reference") and _is_fresh_dict_rooted(a1[1], tr)
-        sname = sa[2][0].single_atom()[2][1:] if sa is not None and sa[0] == "call" and sa[2] and (sa[2][0].single_atom() or ("",))[0] == "loopvar" else None
-        ap = [e for e in tr.of("localmut") if e.name == sname and e.name is not None and e.how == "method:append" and e.pc == dv[0].pc]
-        ok = ok and len(ap) == 1
+        if seq is not None and seq[0] == "comp":
+            ok = ok and len(seq[2]) == 1 and seq[2][0] == q.call_value(tr, dv[0])
+        else:
+            sname = seq[2][1:] if seq is not None and seq[0] == "loopvar" else None
+            ap = [e for e in tr.of("localmut") if e.name == sname and e.name is not None and e.how == "method:append" and e.pc == dv[0].pc]
+            ok = ok and len(ap) == 1
     ctx.ob("FRM", U, "per-component score = %s(reference density, test density) of the same component [%s]" % (want_fn, L), ok, "", dv[0] if dv else None)
     # drift pairing
     ds = [e for e in tr.stores("_drift_state") if e.value == const("drift")]
@@ -174,7 +179,7 @@ def _is_fresh_dict_rooted(t, tr):
 def intersection(ctx, cell, tr, np_):
     L = lab(cell)
     # histograms of the test scores use the stored per-component support
-    bh = [e for e in tr.calls() if e.d.get("fi") is not None and e.fi.name == "_build_histograms" and e.func.qualname == U]
+    bh = [e for e in tr.calls() if e.d.get("fi") is not None and e.fi.name == "_build_histograms" and q.stack_has(e, U)]
     ctx.anchor(U, "test histograms built [%s]" % L, len(bh) == 1, "")
     for e in bh:
         kw = dict(e.kwargs)
@@ -286,7 +291,7 @@ def rebuild(ctx):
                             roots.add(_proj_root(m[1]))
                         return roots == {"_reference_pca_projection", "_test_pca_projection"}
                     ctx.ob("AGREE-support", U, "support of component i spans the reference and the test scores of component i [%s]" % L, mm("min", lo[0]) and mm("max", up[0]), "", lo[0])
-                    bh = [e for e in tr.calls() if e.d.get("fi") is not None and e.fi.name == "_build_histograms" and e.func.qualname == U]
+                    bh = [e for e in tr.calls() if e.d.get("fi") is not None and e.fi.name == "_build_histograms" and q.stack_has(e, U)]
                     okb = len(bh) == 1 and _col_index(bh[0].args[0]) == i
                     if okb:
                         rng = dict(bh[0].kwargs).get("bin_range").single_atom()
@@ -406,7 +411,7 @@ def fit_block(ctx):
                 ok = ok and it is not None and it[0] == "call" and it[1] == "range" and len(it[2]) == 1 and (it[2][0] == A("num_pcs") or (npc and it[2][0] == npc[0].value))
             ctx.ob("IDX", U, "a reference density is stored for every component i under 'PC<i+1>' [%s]" % L, ok, "", dr[0] if dr else None)
             if metric == "kl" and dr:
-                kd = [e for e in tr.calls() if e.d.get("fi") is not None and e.fi.name == "_build_kde" and e.func.qualname == U]
+                kd = [e for e in tr.calls() if e.d.get("fi") is not None and e.fi.name == "_build_kde" and q.stack_has(e, U)]
                 okk = len(kd) == 1 and _proj_root(kd[0].args[0]) == "_reference_pca_projection" and ok and _col_index(kd[0].args[0]) == i
                 ctx.ob("FRM", U, "kl: the reference density of component i is the KDE of the reference scores of component i [%s]" % L, okk, "", kd[0] if kd else None)
     # scoring side: test density keys / sources agree with the reference side
@@ -418,7 +423,7 @@ def fit_block(ctx):
         ok = len(dt) == 1 and len(fresh) == 1 and fresh[0].value in (atom(("dict", ())), atom(("call", "dict", (), ()))) and fresh[0].seq < dt[0].seq
         ctx.ob("ORD", U, "the test densities of a scoring step start from an empty table [%s]" % L, ok, "", fresh[0] if fresh else (dt[0] if dt else None))
         want_fn = "_jensen_shannon_distance" if cell["divergence_metric"] == "kl" else "_intersection_divergence"
-        dv = [e for e in tr.calls() if e.d.get("fi") is not None and e.fi.qualname == PC + "." + want_fn and e.func.qualname == U]
+        dv = [e for e in tr.calls() if e.d.get("fi") is not None and e.fi.qualname == PC + "." + want_fn and q.stack_has(e, U)]
         if dt and dv:
             k_store = _noidx(dt[0].path[0][1])
             a1 = q.unmut(dv[0].args[1]).single_atom()
@@ -430,7 +435,7 @@ def fit_block(ctx):
                    "stored under %s, read under %s" % (q.short(k_store, 40), q.short(k_read, 40) if k_read is not None else None), dt[0])
             src = dt[0].value
             fn = "_build_kde" if cell["divergence_metric"] == "kl" else "_build_histograms"
-            mk = [e for e in tr.calls() if e.d.get("fi") is not None and e.fi.name == fn and e.func.qualname == U]
+            mk = [e for e in tr.calls() if e.d.get("fi") is not None and e.fi.name == fn and q.stack_has(e, U)]
             i = kk[1][1] - const(1) if kk is not None and kk[0] == "fstr" else None
             oks = len(mk) == 1 and T.mentions(mk[0].args[0], lambda z: z == ("attr", "_test_pca_projection")) and not T.mentions(mk[0].args[0], lambda z: z == ("attr", "_reference_pca_projection")) \
                 and i is not None and _col_index(mk[0].args[0]) is not None and _noidx(_col_index(mk[0].args[0])) == _noidx(i)
@@ -449,7 +454,7 @@ def fit_block(ctx):
 
 def winsor_exact(ctx, cell, tr):
     L = lab(cell)
-    wm = [e for e in tr.of("localmut") if e.how == "setitem" and e.func.qualname == U and len(e.path) >= 1 and
+    wm = [e for e in tr.of("localmut") if e.how == "setitem" and q.stack_has(e, U) and len(e.path) >= 1 and
           (e.value.single_atom() or ("",))[0] == "sub" and _rooted_in(e.value.single_atom()[1], "lower") | _rooted_in(e.value.single_atom()[1], "upper")]
     for e in wm:
         comp = e.value.single_atom()[2]
